@@ -184,6 +184,33 @@ theorem logspace_generate (b x : ℝ) (hb : 1 < b) :
   have hb0 : 0 < b := by linarith
   rw [Real.log_rpow hb0, mul_div_assoc, div_self (Real.log_pos hb).ne', mul_one]
 
+/-! ### the constant as a sum of logarithms (what the code computes) is the constant of the determinant -/
+
+/-- `Σ log |vᵢ| = log |∏ vᵢ|` for non-zero `vᵢ`: the stable form used by `normalize()` equals the
+    textbook constant `½ (log |det| + d log 2π)` in every dimension -/
+theorem normalNormSum_eq (vars : List ℝ) (d : ℝ) (h : ∀ v ∈ vars, v ≠ 0) :
+    Dist.normalNormSum Real.log (fun s => |s|) 0 (2 * π) vars d = normConst vars.prod d := by
+  unfold Dist.normalNormSum normConst Dist.normalNorm
+  congr 2
+  induction vars with
+  | nil => simp [Dist.sumList]
+  | cons v rest ih =>
+    have hv : v ≠ 0 := h v (List.mem_cons_self)
+    have hr : ∀ w ∈ rest, w ≠ 0 := fun w hw => h w (List.mem_cons_of_mem _ hw)
+    have hp : rest.prod ≠ 0 := List.prod_ne_zero (fun h0 => (hr 0 h0) rfl)
+    have e : Dist.sumList (0:ℝ) ((v :: rest).map (fun v => Real.log |v|))
+        = Real.log |v| + Dist.sumList 0 (rest.map (fun v => Real.log |v|)) := by
+      simp only [Dist.sumList, List.map_cons, List.foldl_cons, zero_add]
+      have : ∀ (l : List ℝ) (a : ℝ), l.foldl (· + ·) a = a + l.foldl (· + ·) 0 := by
+        intro l
+        induction l with
+        | nil => intro a; simp
+        | cons x xs ihx => intro a; simp only [List.foldl_cons]; rw [ihx (a + x), ihx (0 + x)]; ring
+      exact this _ _
+    rw [e, ih hr, List.prod_cons]
+    show Real.log |v| + Real.log |rest.prod| = Real.log |v * rest.prod|
+    rw [abs_mul, Real.log_mul (abs_ne_zero.mpr hv) (abs_ne_zero.mpr hp)]
+
 /-! ### "after normalize()" over every history of the object -/
 
 /-- whatever else happened to the object, once `normalize()` has been called (directly or by a
